@@ -5,6 +5,7 @@ import json
 import os
 import subprocess
 import threading
+import time
 
 ROOT = os.path.dirname(os.path.dirname(os.path.abspath(__file__)))
 # VERIF_SCRATCH_TARGET / VERIF_SCRATCH_REPO are used only by tools/seed_eval_scratch.sh, which evaluates a seeded change in a
@@ -23,6 +24,14 @@ class ProbeDied(Exception):
     pass
 
 
+class ProbeHang(Exception):
+    pass
+
+
+# wall-clock watchdog per harness call; the largest legitimate calls (multi-thousand-line ledgers) take a few seconds
+CASE_TIMEOUT_S = float(os.environ.get("VERIF_CASE_TIMEOUT_S", "120"))
+
+
 class Probe:
     """One long-lived cgt-probe process; cases go in as JSON lines, observations come back."""
 
@@ -35,8 +44,16 @@ class Probe:
         self.rd = self.p.stdout
         self.buf = b""
 
-    def _readline(self) -> bytes:
+    def _readline(self, deadline=None) -> bytes:
+        import select
         while b"\n" not in self.buf:
+            if deadline is not None:
+                left = deadline - time.monotonic()
+                if left <= 0:
+                    raise ProbeHang()
+                r, _, _ = select.select([self.rd.fileno()], [], [], min(left, 5.0))
+                if not r:
+                    continue
             chunk = os.read(self.rd.fileno(), 1 << 16)
             if not chunk:
                 raise ProbeDied(f"cgt-probe exited (status {self.p.poll()})")
@@ -44,24 +61,48 @@ class Probe:
         line, self.buf = self.buf.split(b"\n", 1)
         return line
 
-    def run(self, cases: list) -> list:
-        """Run a batch; returns observations in order. A writer thread avoids pipe deadlock."""
+    def _start_writer(self, cases):
         data = "".join(json.dumps(c, separators=(",", ":")) + "\n" for c in cases).encode()
+        proc = self.p
 
         def writer():
             try:
-                self.p.stdin.write(data)
-                self.p.stdin.flush()
-            except BrokenPipeError:
+                proc.stdin.write(data)
+                proc.stdin.flush()
+            except (BrokenPipeError, ValueError, OSError):
                 pass
 
         t = threading.Thread(target=writer, daemon=True)
         t.start()
+        return t
+
+    def run(self, cases: list, case_timeout: float = CASE_TIMEOUT_S) -> list:
+        """Run a batch; returns observations in order. A writer thread avoids pipe deadlock. A case that produces no
+        answer within `case_timeout` seconds (a generous wall-clock watchdog, reset after every answer) is recorded as
+        {"hang": ...}: the harness process is killed and restarted and the rest of the batch is sent again."""
         out = []
-        for _ in cases:
-            out.append(json.loads(self._readline()))
-        t.join()
+        todo = list(cases)
+        while todo:
+            self._start_writer(todo)
+            answered = 0
+            try:
+                for _ in todo:
+                    out.append(json.loads(self._readline(time.monotonic() + case_timeout)))
+                    answered += 1
+                todo = []
+            except ProbeHang:
+                out.append({"hang": {"seconds": case_timeout}, "id": todo[answered].get("id")})
+                todo = todo[answered + 1:]
+                self._restart()
         return out
+
+    def _restart(self):
+        try:
+            self.p.kill()
+            self.p.wait(timeout=5)
+        except Exception:
+            pass
+        self.__init__()
 
     def one(self, case: dict) -> dict:
         return self.run([case])[0]
